@@ -4,11 +4,13 @@ PLAN = {
     "thorough": [replays("C11"), tape("C11", 800000, size=500)],
     "class_floors": {"entity:model": 0.1, "entity:component": 0.1, "entity:units": 0.05, "entity:variable": 0.05, "entity:reset": 0.02,
                      "reset-without-order": 0.01, "import-source": 0.03, "equivalence-with-ids": 0.01, "variable-units-owned-by-model": 0.05,
-                     "mutated:clone": 0.3, "mutated:original": 0.3, "probe-known": 0.03},
+                     "mutated:clone": 0.3, "mutated:original": 0.3, "probe-known": 0.03,
+                     "foreign-reset-variable:Component::clone": 0.03, "foreign-reset-variable:Model::clone": 0.03, "foreign-reset-variable:other-component": 0.02,
+                     "foreign-reset-variable:parentless": 0.03, "foreign-reset-variable:unset": 0.03},
 }
 CLAIM = {
     "engine": "rapidcheck-tape",
     "technique": "property-based testing: clone of every entity kind of generated (valid and invalid) models compared by an independent ordered dump, object identity, Printer output and a follow-up mutation of either side",
-    "text": "Random exploration of clone() on models, components, units, variables and resets of generated models, with an oracle made of public getters only: ordered dump including presence flags, held unit definitions, equivalence ids and import-source grouping; equals() both ways; parent(); disjointness of the two object graphs; identical Printer output; and independence under one API mutation (all setter / add / remove / equivalence operations, at any depth) of original or clone. Finds attributes clone() forgets or invents, shared sub-objects and broken re-targeting; cannot show absence.",
+    "text": "Random exploration of clone() on models, components, units, variables and resets of generated models, with an oracle made of public getters only: ordered dump including presence flags, held unit definitions, equivalence ids and import-source grouping; equals() both ways; parent(); disjointness of the two object graphs; identical Printer output; and independence under one API mutation (all setter / add / remove / equivalence operations, at any depth) of original or clone; an appended sub-case gives a reset a variable / test variable outside its own component (another component's, parentless, or none) before Component::clone() / Model::clone(). Finds attributes clone() forgets or invents, shared sub-objects and broken re-targeting; cannot show absence.",
     "note": "Trusts the spec->API builder and the dump (kit/spec.cpp, props/C11.cpp). Listed defects are repaired on the clone (counted) so the search continues past them; ~6% of the cases assert them.",
 }
